@@ -23,9 +23,11 @@ def main(tier, seed, replay=None, pid='C05', mode='kill', powerloss=False):
                    'files removed, the state examined, the operation rerun through a new handle and compared with an uninterrupted run'}[pid]
     ck.cov['rule'] = (f'for every scenario (operation variant x pre-state) in {names} and EVERY n from 1 to the number of gated calls of the operation '
                       f'(open-for-write/write/flush/close/truncate/seek, fsync, rename/replace/link/unlink/mkdir, SQL INSERT/UPDATE/DELETE/VACUUM/COMMIT): {what}; '
-                      'then the folder is read raw (sqlite3+zlib) and through a new Container; every (scenario, n) is a distinct non-trivial case; '
-                      'exhaustive over n for the scenarios listed')
-    ck.cov['exhaustive'] = True
+                      'then the folder is read raw (sqlite3+zlib) and through a new Container, maintenance (repack, pack_all_loose, clean_storage - each may '
+                      'refuse) is retried through a further handle and the folder examined again; every (scenario, n) is a distinct non-trivial case; '
+                      'exhaustive over n for the scenarios listed, except the 12000-object / 2500-object calls (traces of more than 600 calls), where the '
+                      'boundaries around every non-write call and an even sample of the writes are visited (sweep.sparse_points)')
+    ck.cov['exhaustive'] = not any(n in scen.HEAVY for n in names)
     ck.coq()
     common.use_repo()
     total, baselines = sweep.sweep(ck, pid, names, mode, powerloss=powerloss)
